@@ -684,7 +684,8 @@ def rand_world(rng):
     mods = [MOD_A] if shape < 0.7 else [MOD_A, MOD_B]
     for mod in mods:
         if rng.random() < 0.7:
-            world.append(enum(mod, ["Color"], rng.choice([("A", "B"), ("RED",), ("A", "B", "C")])))
+            world.append(enum(mod, ["Color"], rng.choice([("A", "B"), ("RED",), ("A", "B", "C"), ("A", "B"), ("RED", "dark_red", "_x9"),
+                                                         ("A", "a-b", "class"), ("ok", "é", "None", "x y")])))
         n_top = rng.choice([1, 1, 2, 3])
         tops = rng.sample(CLASS_NAMES, n_top)
         for t in tops:
@@ -703,6 +704,20 @@ def rand_world(rng):
             world.append(other(mod, ["Holder"]))
             world.append(model(mod, ["Holder", "Held"], rand_fields(rng, world)))
     return world
+
+
+import keyword
+
+ODD_ENUM = enum(MOD_A, ["Odd"], ("ok", "a-b", "class", "None", "é", "x y", "1x", "x_1", "match", "lambda"))
+
+
+def odd_enum_name(n):
+    """a member name that `Cls.<name>` cannot denote"""
+    return not n.isidentifier() or keyword.iskeyword(n)
+
+
+def has_odd_enum(a):
+    return any(j["t"] == "enum" and odd_enum_name(j["member"]) for j in walk_vals(a["val"]))
 
 
 def hand_cases():
@@ -753,6 +768,12 @@ def hand_cases():
     case(W, inst(Outer, x=inst(Deep, w=inst(In2, z=J(True)))), "books")
     case(W, inst(Outer, items={"t": "list", "items": [inst(Outer, t=J((1,))), inst(In2, z=J(0.0))]}))
     case(W, inst(Outer, attrs=J({"{urn:x}a": "1", "b": "2"})))
+    # enum members whose name is not an identifier / is a keyword (Enum functional API)
+    WO = [Outer, ODD_ENUM, E_top, E_in, In2, Deep]
+    for n in ODD_ENUM["members"]:
+        if n:
+            case(WO, inst(Outer, x=member(ODD_ENUM, n)))
+    case(WO, inst(Outer, x=J([1]), items={"t": "list", "items": [member(ODD_ENUM, "ok"), member(ODD_ENUM, "a-b")]}))
     # same class name in two modules
     A1 = model(MOD_A, ["Address"], [fld("x", dv(None)), fld("y", dv(0))])
     A2 = model(MOD_B, ["Address"], [fld("x", dv(None)), fld("w", dv(0))])
@@ -1279,6 +1300,34 @@ def oracle_check(a):
     return None
 
 
+def covered(a, msg):
+    """A failing input belongs to the listed finding when the value holds an
+    enum member whose name `Cls.<name>` cannot denote (a predicate on the input)
+    *and* the property holds once exactly those members are replaced by None -
+    so nothing else is wrong with it."""
+    try:
+        if not has_odd_enum(a):
+            return None
+
+        def fix(j):
+            t = j["t"]
+            if t == "enum" and odd_enum_name(j["member"]):
+                return {"t": "none"}
+            if t in ("list", "tuple", "set"):
+                return {**j, "items": [fix(x) for x in j["items"]]}
+            if t == "dict":
+                return {**j, "items": [[fix(k), fix(v)] for k, v in j["items"]]}
+            if t == "model":
+                return {**j, "attrs": [[n, fix(v)] for n, v in j["attrs"]]}
+            return j
+
+        if oracle_check({**a, "val": fix(a["val"])}) is None:
+            return "C18-enum-member-name"
+    except Exception:  # noqa: BLE001
+        return None
+    return None
+
+
 def gen_oracle(rng, tier):
     # QName texts with lone surrogates (c18.qnamecp covers literal_value; here the whole render/exec path)
     C = model(MOD_A, ["C"], [fld("q", dv(None))])
@@ -1288,11 +1337,31 @@ def gen_oracle(rng, tier):
 
 
 ORACLES = [
-    Oracle("c18.roundtrip", gen_oracle, oracle_check, from_ops=("c18.code",)),
+    Oracle("c18.roundtrip", gen_oracle, oracle_check, covered=covered, from_ops=("c18.code",)),
 ]
 
-# no listed finding is left: every C18 defect found so far is repaired in /repo
-FINDINGS = {}
+def finding_enum_member_name():
+    """members created through the Enum functional API may have any name"""
+    m = types.ModuleType("c18find_e")
+    sys.modules["c18find_e"] = m
+    m.Odd = Enum("Odd", {"a-b": 1, "class": 2, "ok": 3}, module="c18find_e")
+
+    @dataclasses.dataclass
+    class Holder:
+        x: Any = None
+
+    Holder.__module__ = "c18find_e"
+    Holder.__qualname__ = "Holder"
+    m.Holder = Holder
+    outs = []
+    for name in ("a-b", "class", "ok"):
+        obj = Holder(x=m.Odd[name])
+        text = PycodeSerializer().render(obj)
+        outs.append(run_source(text, "obj", obj)[0])
+    return outs == ["exc:AttributeError", "exc:SyntaxError", "equal"], "/".join(outs)
+
+
+FINDINGS = {"C18-enum-member-name": finding_enum_member_name}
 
 _RULE = (
     "hand-picked cases (every repr_object/literal_value/build_imports branch, each remaining and each repaired defect, cross-type default elision), "
